@@ -144,26 +144,22 @@ def extract(prog, timeout_ms=60000):
 _COMPLETE = {}
 
 
-def complete_value(paths):
-    """The state word that means 'set': the unique value the `true` path of is_set() requires of its load."""
+def complete_pred(paths):
+    """The state words that mean 'set': the condition under which is_set() answers true, as a predicate on the loaded word."""
     key = id(paths)
     if key not in _COMPLETE:
         tp = [p for p in paths['is_set'] if p.result == 'true']
-        if len(tp) != 1:
-            raise Unsupported('is_set has %d paths returning true' % len(tp))
-        rs = [e.rsym for e in tp[0].events if e.rsym is not None]
-        if len(rs) != 1:
-            raise Unsupported('is_set reads the state %d times' % len(rs))
-        s = z3.Solver()
-        s.add(*tp[0].pc)
-        if s.check() != z3.sat:
-            raise Unsupported('is_set can never return true')
-        v = s.model().eval(rs[0], model_completion=True).as_long()
-        s.add(rs[0] != v)
-        if s.check() != z3.unsat:
-            raise Unsupported('is_set returns true for more than one state word')
-        _COMPLETE[key] = (paths, v)
-    return _COMPLETE[key][1]
+        if not tp:
+            raise Unsupported('is_set has no path returning true')
+        alts = []
+        for p in tp:
+            rs = [e.rsym for e in p.events if e.rsym is not None]
+            if len(rs) != 1:
+                raise Unsupported('is_set reads the state %d times' % len(rs))
+            alts.append((rs[0], list(p.pc)))
+        _COMPLETE[key] = (paths, alts)
+    alts = _COMPLETE[key][1]
+    return lambda v: z3.Or(*[z3.And(*[z3.substitute(c, (r, v)) for c in pc]) if pc else z3.BoolVal(True) for r, pc in alts])
 
 
 class Execution:
@@ -352,23 +348,23 @@ class Execution:
     def unset_again(self):
         """a read of the state word that happens-after a completed set but does not see COMPLETE (a later set disturbed the holder)"""
         evs = self.events
-        comp = complete_value(self.paths)
+        comp = complete_pred(self.paths)
         stores = [e for e in evs if e['kind'] in ('W', 'RMW') and e['loc'] == 'state' and not e.get('init') and e.get('wval') is not None
-                  and not z3.is_false(z3.simplify(e['wval'] == comp))]
+                  and not z3.is_false(z3.simplify(comp(e['wval'])))]
         bad = []
         for r in evs:
             if r['kind'] in ('R', 'RMW') and r['loc'] == 'state' and r.get('callname') in ('get', 'is_set'):
                 for w in stores:
-                    bad.append(z3.And(w['active'], r['active'], w['wval'] == comp, self.hb[w['id']][r['id']], r['rval'] != comp))
+                    bad.append(z3.And(w['active'], r['active'], comp(w['wval']), self.hb[w['id']][r['id']], z3.Not(comp(r['rval']))))
         return z3.Or(*bad) if bad else z3.BoolVal(False)
 
     def premature_set(self):
         """is_set / get sees the COMPLETE word in the constructor's own initial write: 'set' is reported although no set ran"""
-        comp = complete_value(self.paths)
+        comp = complete_pred(self.paths)
         bad = []
         for r in self.events:
             if r['kind'] in ('R', 'RMW') and r['loc'] == 'state' and r.get('callname') in ('get', 'is_set') and r['id'] in self.rf:
-                bad.append(z3.And(r['active'], self.rf[r['id']] == 0, r['rval'] == comp))
+                bad.append(z3.And(r['active'], self.rf[r['id']] == 0, comp(r['rval'])))
         return z3.Or(*bad) if bad else z3.BoolVal(False)
 
     def check(self, cond, timeout_ms=60000):
